@@ -247,3 +247,63 @@ def c16_picture_no_duplicates(ctx, v):
             ok += 0 if bad else 1
     v.covers_total += 1
     v.covers_sat += 1 if ok else 0
+
+
+def c16_mark_as_fetched_step(ctx, v):
+    """BlockchainSyncState::mark_as_fetched(hash) with TWO peers whose queues both hold an entry
+    for that hash (any status) next to another entry: when the marking loop is done (the
+    clean-up call remove_fetched_blocks is cut) the entry is Fetched in BOTH queues — a block that
+    arrived through one peer frees its slot at every peer that announced it — and the other
+    entries keep their status."""
+    from .models import value_eq
+    body = ctx.body(r"blockchain_sync_state::<impl at [^>]*>::mark_as_fetched$")
+    ex = ctx.executor(loop_bound=6, inline="auto", max_paths=4000, no_inline=[r"remove_fetched_blocks$", r"to_hex", r"fmt"])
+    ex.pure = [r".*"]
+    ex.stop_calls = [r"remove_fetched_blocks$"]
+    h = ex.fresh_value("[u8; 32]", "fetched.hash")
+    peers, queues, others = [], [], []
+    for p in range(2):
+        e_h = ctx.mk_struct(ex, "BlockData", "p%d.hit" % p, block_hash=ex.copy_value(h), block_id=ex.fresh_value("u64", "p%d.hit.id" % p), status=ex.fresh_value("BlockStatus", "p%d.hit.status" % p),
+                            retry_count=ex.fresh_value("u32", "p%d.hit.retry" % p))
+        oh = ex.fresh_value("[u8; 32]", "p%d.other.hash" % p)
+        ost = ex.fresh_value("BlockStatus", "p%d.other.status" % p)
+        e_o = ctx.mk_struct(ex, "BlockData", "p%d.other" % p, block_hash=oh, block_id=ex.fresh_value("u64", "p%d.other.id" % p), status=ost, retry_count=ex.fresh_value("u32", "p%d.other.retry" % p))
+        order = [e_o, e_h] if p else [e_h, e_o]
+        queues.append(S.Seq(order, "BlockData"))
+        peers.append(ex.fresh_value("u64", "peer%d" % p))
+        others.append((oh, ost, 0 if p else 1))
+    btf = S.MapV("blocks_to_fetch", [[z3.BoolVal(True), peers[p], queues[p]] for p in range(2)])
+    state = ctx.mk_struct(ex, "BlockchainSyncState", "sync", blocks_to_fetch=btf)
+    st = S.State()
+    st.pc.extend([peers[0].bv != peers[1].bv] + [z3.Not(value_eq(ex, oh, h)) for oh, _, _ in others] +
+                 [L.enum_in_range(e.fields[ctx.field_index("BlockData", "status")], 4) for q in queues for e in q.items])
+    outs = ex.run(body, [S.Ref(S.Cell(state), (), True), h], st)
+    v.paths += len(outs)
+    n = 0
+    for o in outs:
+        if o.kind in ("unsupported", "unwound", "path-limit"):
+            return v.undecided("%s %s" % (o.kind, o.info))
+        if o.kind == "panic":
+            L.report_panic(v, ex, o, "mark_as_fetched panics: %s" % o.info)
+            continue
+        if o.kind not in ("stopped", "return"):
+            continue
+        post = ex.deref_value(o.state.frames[0].locals["_1"].v)
+        pmap = post.fields[ctx.field_index("BlockchainSyncState", "blocks_to_fetch")]
+        bad = False
+        for p in range(2):
+            cell = pmap.entries[p][2]
+            dq = cell.v if isinstance(cell, S.Cell) else cell
+            for e in dq.items:
+                eh = e.fields[ctx.field_index("BlockData", "block_hash")]
+                stt = e.fields[ctx.field_index("BlockData", "status")]
+                d = ex.discr_of(stt)
+                dbv = d.bv if isinstance(d, S.I) else z3.BitVecVal(d, 64)
+                is_hit = value_eq(ex, eh, h)
+                v.queries += 1
+                if ex.feasible(o.pc, z3.And(is_hit, dbv != FETCHED)):
+                    L.fail_structural(v, o, "after mark_as_fetched the entry for the fetched block is not Fetched in the queue of peer #%d (its slot there stays occupied / it is requested again)" % p)
+                    bad = True
+        n += 0 if bad else 1
+    v.covers_total += 1
+    v.covers_sat += 1 if n else 0
